@@ -11,7 +11,7 @@ echo "demo destination: $demo_dst"
 git checkout -q -- . ; git clean -fdq -e target
 git apply --check $D/$OUT/patch.diff || { echo "PATCH DOES NOT APPLY"; exit 1; }
 crate=$(echo $demo_dst | cut -d/ -f1); tname=$(basename $demo_dst .rs)
-cp $D/$OUT/demo.rs $demo_dst
+mkdir -p $(dirname $demo_dst); cp $D/$OUT/demo.rs $demo_dst
 echo "== clean tree: demo must pass"
 cargo test --offline -p $crate --test $tname 2>&1 | grep -E "^test result|FAILED|panicked|error" | head -5
 git apply $D/$OUT/patch.diff
